@@ -277,6 +277,37 @@ def defs_of(node):
     elif node.kind == 'except':
         if a.name:
             out.append((a.name, None))
+    for nm, val in _walrus_defs(node):
+        if not any(o[0] == nm for o in out):
+            out.append((nm, val))
+    return out
+
+
+def _walrus_defs(node):
+    """`name := value` inside the expression a CFG node evaluates"""
+    a = node.ast
+    if a is None or node.kind not in ('stmt', 'test', 'iter'):
+        return []
+    if node.kind == 'test':
+        root = getattr(a, 'test', None)
+    elif node.kind == 'iter':
+        root = getattr(a, 'iter', None)
+    else:
+        if isinstance(a, (ast.If, ast.While, ast.For, ast.AsyncFor, ast.Try, ast.With, ast.AsyncWith,
+                          ast.FunctionDef, ast.AsyncFunctionDef, ast.ClassDef)):
+            return []
+        root = a
+    if root is None:
+        return []
+    out = []
+    stack = [root]
+    while stack:
+        x = stack.pop()
+        if isinstance(x, (ast.FunctionDef, ast.AsyncFunctionDef, ast.Lambda, ast.ClassDef)):
+            continue
+        if isinstance(x, ast.NamedExpr) and isinstance(x.target, ast.Name):
+            out.append((x.target.id, x.value))
+        stack.extend(ast.iter_child_nodes(x))
     return out
 
 
@@ -405,6 +436,12 @@ def provenance(func_node, expr, max_depth=12, control=None):
         seen.add(key)
         if isinstance(e, ast.Name):
             if isinstance(e.ctx, ast.Load):
+                here = [v for nm, v in _walrus_defs(at_node) if nm == e.id] if at_node is not None else []
+                if here:
+                    # bound by `:=` inside the expression that reads it
+                    for v in here:
+                        visit(v, at_node, depth + 1)
+                    return
                 ds = rd.reaching(at_node, e.id)
                 if not ds:
                     out.add(('global', e.id))
@@ -640,6 +677,7 @@ def possibly_undefined(func_node):
     """
     cfg, rd = analyse(func_node)
     gen = {n: {nm for nm, _ in defs_of(n)} for n in cfg.nodes}
+    walrus = {n: set() for n in cfg.nodes}
     for n in cfg.nodes:
         # named expressions bind too
         a = n.ast
@@ -650,6 +688,7 @@ def possibly_undefined(func_node):
             for x in ast.walk(root):
                 if isinstance(x, ast.NamedExpr) and isinstance(x.target, ast.Name):
                     gen[n].add(x.target.id)
+                    walrus[n].add(x.target.id)
     locals_ = set()
     for g in gen.values():
         locals_ |= g
@@ -683,5 +722,10 @@ def possibly_undefined(func_node):
     for n in cfg.nodes:
         for u in _uses_of(n):
             if u.id in locals_ and u.id not in params and u.id not in IN[n]:
+                if u.id in walrus[n]:
+                    # bound by `:=` inside the very expression that reads it
+                    # (`w for a in xs if (w := f(a))`, `(m := rx.search(t)) and m[0]`):
+                    # the order inside one expression is not modelled - no report
+                    continue
                 out.append((u, n))
     return out
